@@ -19,7 +19,7 @@ MODULE = "PyseqmVerif.Properties.C09"
 
 META = {
     "technique": "Lean 4 refinement proof (circular buffer = history recurrence for all m, n, phases; restart restores the newest entry) + kernel-decided theorems about the coefficient tables REGENERATED from the live code (sum c = 0, window rotation, probed effective weights, published Niklasson scheme, fixed-point weight sum) + shadow-energy identity + characteristic-polynomial conditions for all k + rational Lyapunov certificates (k = 3, whole response range) + bit-exact correspondence of _propagate_P",
-    "level_text": "Theorems: for every buffer size m, step n and initial phase the circular-buffer implementation computes the history recurrence, and the restart formula returns the newest entry (resumed = uninterrupted at every phase); for the tables regenerated from XL_BOMD.__init__ and the weights PROBED from the real _propagate_P (k = 3..9, every phase): sum_j c_j = 0, the window is a rotation, weights = published scheme with kappa_eff = 0.95 kappa, fixed-point weight sum = 1 within 2^-52, so a stationary system keeps P forever at any phase (real-number scheme exactly); E_XL(D,P) = E_SCF(P) at D = P for any Hcore and two-electron map; chi(1) = lambda != 0, sign of chi(-1), |prod roots| < 1 for all k; for k = 3 exact rational Lyapunov certificates on 52 intervals prove contraction for the whole range lambda in [1/50, 0.95*1.69]. Tied to the code by the per-run translator (tables + impulse probing) and by bit-exact comparison of the real _propagate_P / KSA variant with the compiled Float model on real-shaped densities at every k and phase, plus recorded histories of real one_step calls. Round 2 (C09c): the executed recurrence preserves every linear invariant of the density (electron count) at every buffer phase, and a response update with trace t changes it by exactly coeffD*t; observed on the real code by the aux_trace probe (padded batch members, fractional occupations, Krylov ranks 1-4).",
+    "level_text": "Theorems: for every buffer size m, step n and initial phase the circular-buffer implementation computes the history recurrence, and the restart formula returns the newest entry (resumed = uninterrupted at every phase); for the tables regenerated from XL_BOMD.__init__ and the weights PROBED from the real _propagate_P (k = 3..9, every phase): sum_j c_j = 0, the window is a rotation, weights = published scheme with kappa_eff = 0.95 kappa, fixed-point weight sum = 1 within 2^-52, so a stationary system keeps P forever at any phase (real-number scheme exactly); E_XL(D,P) = E_SCF(P) at D = P for any Hcore and two-electron map; chi(1) = lambda != 0, sign of chi(-1), |prod roots| < 1 for all k; for k = 3 exact rational Lyapunov certificates on 52 intervals prove contraction for the whole range lambda in [1/50, 0.95*1.69]. Tied to the code by the per-run translator (tables + impulse probing) and by bit-exact comparison of the real _propagate_P / KSA variant with the compiled Float model on real-shaped densities at every k and phase, plus recorded histories of real one_step calls. Round 2 (C09c): the executed recurrence preserves every linear invariant of the density (electron count) at every buffer phase, and a response update with trace t changes it by exactly coeffD*t; observed on the real code by the aux_trace probe (padded batch members, fractional occupations, Krylov ranks 1-4). Translator tie: the XL / XL-ESMD step bodies are velocity Verlet whose force engine sees the PROPAGATED auxiliary state (StepTie.xl_is_vvStep_on_propagated_aux, esmd_is_xl_without_cavity).",
     "level_note": "Trusted: Lean kernel; translator gen.xlcoeffs (impulse probing of the real method) and lyap.py (certificate generator; its output is checked by the kernel, reproducibility re-checked each run). Partial: continuum stability for k >= 4 (only necessary conditions are theorems); dt^2 scaling of the shadow energy, absence of drift and dt -> 0 convergence to BOMD are validated by probes, not proved.",
     "design_ref": "DESIGN.md section 5 C09",
 }
